@@ -192,6 +192,31 @@ def fs_order(ctx):
 
 
 # ------------------------------------------------------------------------------------------------ randomness, time
+def flows_only_to_label(M, fn, node, attr='order_id', depth=0):
+    """the value computed at `node` (inside fn) reaches nothing but an assignment to <obj>.<attr>: directly, or as the return value of fn at every call site"""
+    if depth > 3:
+        return False
+    pm = parent_map(fn.node)
+    q, p = node, pm.get(node)
+    while p is not None:
+        if isinstance(p, ast.Attribute) and p.value is q and p.attr in ('hex', 'int', 'urn'):
+            pass
+        elif isinstance(p, ast.Call) and q in p.args and isinstance(p.func, ast.Name) and p.func.id in ('str', 'repr', 'format'):
+            pass
+        elif isinstance(p, ast.IfExp) and q in (p.body, p.orelse):
+            pass
+        elif isinstance(p, ast.Assign) and p.value is q:
+            return all(isinstance(t, ast.Attribute) and t.attr == attr for t in p.targets)
+        elif isinstance(p, ast.Return) and p.value is q:
+            sites = [(c, n_) for c, n_ in M.call_sites(fn.qn) if isinstance(n_, ast.Call)]
+            others = [(c, n_) for c, n_ in M.call_sites(fn.qn) if not isinstance(n_, ast.Call)]
+            return bool(sites) and not others and all(flows_only_to_label(M, c, n_, attr, depth + 1) for c, n_ in sites)
+        else:
+            return False
+        q, p = p, pm.get(p)
+    return False
+
+
 def randomness(ctx):
     M = ctx.M
     n = 0
@@ -202,6 +227,8 @@ def randomness(ctx):
                 if name and (name.startswith(RANDOM_PREFIXES) or name in RANDOM_PREFIXES):
                     n += 1
                     tab = TABLED_RANDOM.get((fn.qn, name))
+                    if not tab and name == 'uuid.uuid4' and flows_only_to_label(M, fn, node):
+                        tab = 'random label: the value reaches only <order>.order_id (discharged by the order_id taint rule below)'
                     ctx.require(bool(tab), 'C18.random', 'no untabled source of randomness, wall-clock time or object identity (%s in %s)' % (name, fn.qn), fn.site(node),
                                 '%s differs from run to run' % name, key='C18.random|%s|%s' % (fn.qn, name))
     # dynamic imports hide a source from the enumeration above
@@ -253,7 +280,7 @@ def randomness(ctx):
                 ok = all(isinstance(t, ast.Attribute) and t.attr == 'order_id' for t in p.targets)
                 why = 'assigned to %s' % [ast.unparse(t) for t in p.targets]
             elif isinstance(p, ast.Return):
-                ok = fn.name in ('_set_or_generate_order_id',)
+                ok = fn.name in ('_set_or_generate_order_id',) or flows_only_to_label(M, fn, q)
                 why = 'returned'
             else:
                 why = type(p).__name__
